@@ -759,6 +759,22 @@ def c01(ctx):
                     for m in ("ts", "tsx", "mts", "dts"):
                         must_debug.append({"src": src, "media": m, "rules": "all"})
                 break
+    # (11) pragma-like tags in the comments at the top of a file, with valid, unknown and malformed values, every media type
+    PRAGMAS = ["@jsx", "@jsxFrag", "@jsxRuntime", "@jsxImportSource", "@ts-nocheck", "@ts-check", "@deno-types", "@jsxImportSourceTypes", "@refresh", "@license", "@flow"]
+    PVALS = ["h", "React.createElement", "a..b", "h.", ".h", "1", "", "foo", "classic", "automatic", "(", "a b", "é", "this.h", "import.meta.x", "null", "a?.b", "h()", "'x'", "preact",
+             "\\", "a.b.c.d.e", "x" * 300, "😀", "@jsx", "*/", "<div>"]
+    for pg in PRAGMAS:
+        for pv in PVALS:
+            if "*/" in pv:
+                heads = ["// %s %s\n" % (pg, pv)]
+            else:
+                heads = ["/** %s %s */\n" % (pg, pv), "/* %s %s */" % (pg, pv), "// %s %s\n" % (pg, pv), "/**\n * %s %s\n * @jsxRuntime %s\n */\n" % (pg, pv, pv),
+                         "#!/usr/bin/env deno\n/** %s %s */\n" % (pg, pv), "/** %s %s */\n@dec export class A {}\n" % (pg, pv)]
+            for hd in heads:
+                for body, m in (("const a = <div x={1}>t</div>; export default <></>;", "tsx"), ("const a = <div/>;", "jsx"), ("let a = 1; a;", "ts"), ("let a = 1; a;", "js"), ("", "dts")):
+                    if "@dec" in hd and m in ("js", "jsx", "dts"):
+                        continue
+                    must_debug.append({"src": hd + body, "media": m, "rules": "all", "jsx": rng.choice([None, "h", "React.createElement"])})
     cases += must_debug
     # (7) regular-expression heavy files (long digit runs, \u{...} with many hex digits, deep groups), all rules
     import regex as RX
